@@ -21,9 +21,16 @@ func (p *Program) verifyFunction(f *ssa.Function, ct *Contract, sweep, refute bo
 	vc.contract = ct
 	vc.sweep = sweep
 	vc.refute = refute
+	startTerms, startTime := termCount, time.Now()
+	termBudgetCheck = func() {
+		if termCount-startTerms > 3000000 || time.Since(startTime) > 120*time.Second {
+			panic(fmt.Sprintf("resource budget exceeded while generating obligations (%d terms, %.0fs): the function is outside what the engine can decide", termCount-startTerms, time.Since(startTime).Seconds()))
+		}
+	}
 	defer func() {
+		termBudgetCheck = nil
 		if r := recover(); r != nil {
-			err = fmt.Errorf("%s: engine failure: %v\n%s", p.shortName(f), r, debug.Stack())
+			err = fmt.Errorf("%s: engine failure: %v\n%s", p.shortName(f), r, firstLines(string(debug.Stack()), 12))
 		}
 	}()
 	st := newState()
